@@ -16,9 +16,28 @@ open Mqtt.Model.Ring Mqtt.Iface.Ring Mqtt.Spec.Ring
 
 /-! ### a termination measure: every enabled step decreases it -/
 
+/-- weight of one iteration of `ReadFrom`'s loop whose reader offers `m` bytes, and of a whole
+`ReadFrom` with the reader script `ms` (the last iteration finds the reader at its end; then `Close`) -/
+def iterW (m : Nat) : Nat := 2 * m + 70
+def rfW : List Nat → Nat
+  | [] => 30
+  | m :: ms => iterW m + rfW ms
+
+theorem rfW_ge (ms : List Nat) : 30 ≤ rfW ms := by
+  induction ms with
+  | nil => exact Nat.le_refl _
+  | cons m ms ih => unfold rfW; omega
+
+/-- what a `ReadFrom` that is inside `waitForWriteSpace` / `WriteCommit` still has to do after that call -/
+def contW : Option Call → Nat
+  | some (.rfrom _ ms) => rfW ms
+  | some (.rfcommit _ ms) => rfW ms + 40
+  | _ => 0
+
 /-- weight of a call that has not started: more than the rank of its first program counter -/
 def callW (cfg : Cfg) : Call → Nat
   | .write n => n + 27 | .wwait n => n + 26 | .wcommit n => n + 26 | .wfill => cfg.size + 3
+  | .rfrom _ ms => rfW ms + 31 | .rfcommit _ _ => 1 | .rfret _ _ => 1
   | .read n => n + 24 | .peek n => n + 15 | .rwait n => n + 15 | .use => cfg.size + 3 | .commit _ => 15
   | .close => 24 | .len => 3
 
@@ -29,11 +48,15 @@ def pcRank (sh : Sh) (cur : Option Call) : Pc → Nat
   | .x10 => 23 | .x11 => 22 | .x12 => 21 | .x13 => 12 | .x14 => 11 | .x15 => 10 | .x16 => 1
   | .l20 => match cur with | some (.read n) => n + 22 | _ => 2
   | .l21 _ => match cur with | some (.read n) => n + 21 | _ => 1
-  | .s30 n => n + 25 | .s31 n => n + 24 | .s32 n _ => n + 23 | .s33 n _ => n + 22 | .s34 n _ => n + 16
-  | .s35 _ _ => 1 | .s36 n _ => n + 15 | .s36w n _ => n + 14 | .s37 n _ => n + 21 | .s38 n _ _ => n + 15
-  | .w40 n => n + 26 | .w41c n _ j => (n - j) + 13 | .w42 _ _ => 12 | .w43 _ => 11 | .w44 _ => 10 | .w45 _ => 1
-  | .c50 _ _ => 12 | .c51 _ => 11 | .c52 _ => 10 | .c53 _ => 1
+  | .s30 n => n + 25 + contW cur | .s31 n => n + 24 + contW cur | .s32 n _ => n + 23 + contW cur
+  | .s33 n _ => n + 22 + contW cur | .s34 n _ => n + 16 + contW cur
+  | .s35 _ _ => 1 + contW cur | .s36 n _ => n + 15 + contW cur | .s36w n _ => n + 14 + contW cur
+  | .s37 n _ => n + 21 + contW cur | .s38 n _ _ => n + 15 + contW cur
+  | .w40 n => n + 26 + contW cur | .w41c n _ j => (n - j) + 13 | .w42 _ _ => 12 | .w43 _ => 11 | .w44 _ => 10 | .w45 _ => 1
+  | .c50 _ _ => 12 + contW cur | .c51 _ => 11 + contW cur | .c52 _ => 10 + contW cur | .c53 _ => 1 + contW cur
   | .f0 _ len j => (len - j) + 1
+  | .g110 _ ms => rfW ms + 30 | .g112 _ ms _ => rfW ms + 10 | .g111 _ ms _ _ => rfW ms + 9
+  | .g111c _ ms _ n j => (n - j) + n + 68 + rfW ms | .g111r _ ms n => n + 67 + rfW ms
   | .r60 n => n + 23
   | .r61 n => if sh.cseq < sh.pseq then n + 15 else n + 20
   | .r62 n cpos => if cpos < sh.pseq then n + 14 else n + 19
@@ -55,10 +78,16 @@ def thRank (cfg : Cfg) (sh : Sh) (th : Th) : Nat := progW cfg th.prog + pcRank s
 def noteT (sh : Sh) : Nat := (if sh.pNote then 8 else 0) + (if sh.cNote then 8 else 0)
 
 theorem pcRank_wfsOk (cfg : Cfg) (sh : Sh) (th : Th) (ppos n : Nat) :
-    pcRank sh (wfsOk cfg th ppos n).cur (wfsOk cfg th ppos n).pc ≤ n + 13 ∧ (wfsOk cfg th ppos n).prog = th.prog := by
+    pcRank sh (wfsOk cfg th ppos n).cur (wfsOk cfg th ppos n).pc ≤ n + 13 + contW th.cur ∧
+      (wfsOk cfg th ppos n).prog = th.prog := by
   unfold wfsOk; dsimp only
-  repeat' split
-  all_goals simp [pcRank, Th.goto, Th.ret]
+  split
+  · rename_i h; simp [pcRank, Th.goto, h, contW]
+  · split <;> simp [pcRank, Th.goto, Th.ret]
+  · rename_i h; simp [pcRank, Th.goto, h, contW]
+  · rename_i h; simp [pcRank, Th.goto, h, contW] <;> omega
+  · rename_i h; simp [pcRank, Th.goto, h, contW] <;> omega
+  · simp [pcRank, Th.goto, Th.ret]
 
 theorem noteT_setOwner (sh : Sh) (m : Mx) (o : Option Tid) : noteT (sh.setOwner m o) = noteT sh := by cases m <;> rfl
 theorem noteT_unlock (sh : Sh) (m : Mx) : noteT (sh.unlock m) = noteT sh := by
@@ -75,6 +104,45 @@ theorem noteT_resume (sh : Sh) (m : Mx) (o : Option Tid) (h : sh.note m = true) 
     noteT ((sh.setOwner m o).setNote m false) + 8 = noteT sh := by
   cases m <;> simp only [Sh.note] at h <;> cases hp : sh.pNote <;> cases hc : sh.cNote <;>
     simp_all [Sh.setNote, Sh.setOwner, noteT]
+
+theorem thRank_rfExit (cfg : Cfg) (sh : Sh) (th : Th) (n : Nat) (e : Err) :
+    thRank cfg sh (rfExit th n e) = progW cfg th.prog + 23 := rfl
+
+theorem thRank_wfsErr (cfg : Cfg) (sh : Sh) (th : Th) (e : Err) :
+    thRank cfg sh (wfsErr th e) ≤ progW cfg th.prog + contW th.cur := by
+  unfold wfsErr
+  split
+  · rename_i tot ms h
+    have := rfW_ge ms
+    rw [thRank_rfExit, h]; show _ ≤ _ + rfW ms; omega
+  · rename_i tot ms h
+    have := rfW_ge ms
+    rw [thRank_rfExit, h]; show _ ≤ _ + (rfW ms + 40); omega
+  · simp [thRank, pcRank, Th.ret]
+
+theorem thRank_enterWfs (cfg : Cfg) (sh : Sh) (th : Th) (n : Nat) :
+    thRank cfg sh (enterWfs cfg th n) ≤ progW cfg th.prog + (n + 25 + contW th.cur) := by
+  unfold enterWfs
+  split
+  · have := thRank_wfsErr cfg sh th .full; omega
+  · simp [thRank, pcRank, Th.goto]
+
+theorem thRank_wcRet (cfg : Cfg) (sh : Sh) (th : Th) (n : Nat) :
+    thRank cfg sh (wcRet th n) ≤ progW cfg th.prog + contW th.cur := by
+  unfold wcRet
+  split
+  · rename_i tot ms h
+    rw [h]; show progW cfg th.prog + (rfW ms + 30) ≤ progW cfg th.prog + (rfW ms + 40); omega
+  · simp [thRank, pcRank, Th.ret]
+
+theorem thRank_closeRet (cfg : Cfg) (sh : Sh) (th : Th) : thRank cfg sh (closeRet th) = progW cfg th.prog := by
+  unfold closeRet
+  split <;> simp [thRank, pcRank, Th.ret]
+
+theorem rfW_tail (ms : List Nat) (h : ms ≠ []) : rfW ms = iterW (ms.headD 0) + rfW ms.tail := by
+  cases ms with
+  | nil => exact absurd rfl h
+  | cons m rest => rfl
 
 /-- one own step strictly decreases rank + wake-up credit -/
 theorem rank_own (cfg : Cfg) (sh sh' : Sh) (me : Tid) (th th' : Th)
@@ -98,11 +166,20 @@ theorem rank_own (cfg : Cfg) (sh sh' : Sh) (me : Tid) (th th' : Th)
       obtain ⟨rfl, rfl⟩ := hs
       have hv := hview rest
       have hsl := hslice rest
-      cases call <;> simp only [startCall, enterWfs, wfsErr, Th.goto, Th.ret, thRank, progW, pcRank, callW,
-        List.map_cons, List.sum_cons]
+      cases call
+      case wwait n =>
+        simp only [startCall]
+        refine Nat.lt_of_le_of_lt (Nat.add_le_add_right (thRank_enterWfs cfg sh _ n) _) ?_
+        simp only [thRank, progW, pcRank, callW, contW, List.map_cons, List.sum_cons]
+        omega
       case wcommit n =>
+        simp only [startCall]
         have := Nat.min_le_left n filled
-        split <;> (try dsimp only) <;> (try simp only [pcRank]) <;> omega
+        refine Nat.lt_of_le_of_lt (Nat.add_le_add_right (thRank_enterWfs cfg sh _ (min n filled)) _) ?_
+        simp only [thRank, progW, pcRank, callW, contW, List.map_cons, List.sum_cons]
+        omega
+      all_goals simp only [startCall, Th.goto, Th.ret, thRank, progW, pcRank, callW, contW,
+        List.map_cons, List.sum_cons]
       case wfill =>
         split
         · have := hsl _ _ rfl rfl
@@ -169,8 +246,16 @@ theorem rank_own (cfg : Cfg) (sh sh' : Sh) (me : Tid) (th th' : Th)
     tstep_norm
     rcases hs with ⟨h1, rfl, rfl⟩ | ⟨h1, rfl, rfl⟩
     · simp only [thRank, progW, pcRank, Th.ret]; omega
-    · simp only [enterWfs, wfsErr, thRank, progW, pcRank, Th.ret, Th.goto]
-      split <;> simp only [pcRank] <;> omega
+    · refine Nat.lt_of_le_of_lt (Nat.add_le_add_right (thRank_enterWfs cfg sh _ n) _) ?_
+      simp only [thRank, progW, pcRank]
+      omega
+  case s30 n =>
+    tstep_norm
+    rcases hs with ⟨h1, rfl, rfl⟩ | ⟨h1, rfl, rfl⟩
+    · refine Nat.lt_of_le_of_lt (Nat.add_le_add_right (thRank_wfsErr cfg sh _ _) _) ?_
+      simp only [thRank, progW, pcRank]
+      omega
+    · simp only [thRank, progW, pcRank, Th.goto]; omega
   case s31 n =>
     tstep_norm
     rcases hs with ⟨h1, rfl, rfl⟩ | ⟨h1, rfl, rfl⟩
@@ -179,9 +264,15 @@ theorem rank_own (cfg : Cfg) (sh sh' : Sh) (me : Tid) (th th' : Th)
         { pc := Pc.s31 n, prog := prog, cur := cur, slice := slice, filled := filled, view := view, pending := pending } sh.pseq n
       have h1 : thRank cfg sh (wfsOk cfg
           { pc := Pc.s31 n, prog := prog, cur := cur, slice := slice, filled := filled, view := view, pending := pending } sh.pseq n)
-          ≤ progW cfg prog + (n + 13) := by unfold thRank; rw [b]; dsimp only; omega
-      have h2 : thRank cfg sh ⟨Pc.s31 n, prog, cur, slice, filled, view, pending, res⟩ = progW cfg prog + (n + 24) := rfl
+          ≤ progW cfg prog + (n + 13 + contW cur) := by unfold thRank; rw [b]; dsimp only at a ⊢; omega
+      have h2 : thRank cfg sh ⟨Pc.s31 n, prog, cur, slice, filled, view, pending, res⟩ = progW cfg prog + (n + 24 + contW cur) := rfl
       omega
+  case s35 n ppos =>
+    tstep_norm
+    obtain ⟨rfl, rfl⟩ := hs
+    refine Nat.lt_of_le_of_lt (Nat.add_le_add_right (thRank_wfsErr cfg _ _ _) _) ?_
+    simp only [thRank, progW, pcRank, noteT_unlock]
+    omega
   case s38 n ppos cpos =>
     tstep_norm
     obtain ⟨e1, e2⟩ := hs
@@ -189,10 +280,48 @@ theorem rank_own (cfg : Cfg) (sh sh' : Sh) (me : Tid) (th th' : Th)
     have hn : noteT sh' = noteT sh := by rw [← e1, noteT_unlock]; rfl
     obtain ⟨a, b⟩ := pcRank_wfsOk cfg sh' ⟨Pc.s38 n ppos cpos, prog, cur, slice, filled, view, pending, none⟩ ppos n
     have h1 : thRank cfg sh' (wfsOk cfg ⟨Pc.s38 n ppos cpos, prog, cur, slice, filled, view, pending, none⟩ ppos n)
-        ≤ progW cfg prog + (n + 13) := by unfold thRank; rw [b]; dsimp only; omega
-    have h2 : thRank cfg sh ⟨Pc.s38 n ppos cpos, prog, cur, slice, filled, view, pending, res⟩ = progW cfg prog + (n + 15) := rfl
+        ≤ progW cfg prog + (n + 13 + contW cur) := by unfold thRank; rw [b]; dsimp only at a ⊢; omega
+    have h2 : thRank cfg sh ⟨Pc.s38 n ppos cpos, prog, cur, slice, filled, view, pending, res⟩ = progW cfg prog + (n + 15 + contW cur) := rfl
     rw [hn]
     exact Nat.lt_of_le_of_lt (Nat.add_le_add_right h1 _) (by rw [h2]; omega)
+  case c53 n =>
+    tstep_norm
+    obtain ⟨rfl, rfl⟩ := hs
+    refine Nat.lt_of_le_of_lt (Nat.add_le_add_right (thRank_wcRet cfg _ _ n) _) ?_
+    simp only [thRank, progW, pcRank, noteT_unlock]
+    omega
+  case x16 =>
+    tstep_norm
+    obtain ⟨rfl, rfl⟩ := hs
+    rw [thRank_closeRet]
+    simp only [thRank, progW, pcRank, noteT_unlock]
+    omega
+  case g110 tot ms =>
+    tstep_norm
+    rcases hs with ⟨h1, rfl, rfl⟩ | ⟨h1, rfl, rfl⟩
+    · rw [thRank_rfExit]
+      have := rfW_ge ms
+      simp only [thRank, progW, pcRank]; omega
+    · refine Nat.lt_of_le_of_lt (Nat.add_le_add_right (thRank_enterWfs cfg sh _ 1) _) ?_
+      simp only [thRank, progW, pcRank, contW]
+      omega
+  case g111 tot ms start len =>
+    tstep_norm
+    rcases hs with ⟨h1, rfl, rfl⟩ | ⟨h1, rfl, rfl⟩
+    · rw [thRank_rfExit]
+      have := rfW_ge ms
+      simp only [thRank, progW, pcRank]; omega
+    · have ht := rfW_tail ms h1
+      have hm := Nat.min_le_left (ms.headD 0) len
+      simp only [thRank, progW, pcRank, Th.goto, ht, iterW]
+      omega
+  case g111r tot ms n =>
+    tstep_norm
+    rcases hs with ⟨h1, rfl, rfl⟩ | ⟨h1, rfl, rfl⟩
+    · refine Nat.lt_of_le_of_lt (Nat.add_le_add_right (thRank_enterWfs cfg sh _ n) _) ?_
+      simp only [thRank, progW, pcRank, contW]
+      omega
+    · simp only [thRank, progW, pcRank, Th.goto]; omega
   case p88 w n cpos ppos =>
     tstep_norm
     rcases hs with ⟨h1, rfl, rfl⟩ | ⟨h1, rfl, rfl⟩
@@ -209,7 +338,7 @@ theorem rank_own (cfg : Cfg) (sh sh' : Sh) (me : Tid) (th th' : Th)
   all_goals tstep_norm
   all_goals tstep_elim
   all_goals (
-    simp only [thRank, progW, pcRank, Th.goto, Th.ret, wfsErr, noteT_setOwner, noteT_unlock, pseq_unlock, cseq_unlock,
+    simp only [thRank, progW, pcRank, Th.goto, Th.ret, noteT_setOwner, noteT_unlock, pseq_unlock, cseq_unlock,
       pseq_setOwner, cseq_setOwner]
     first
     | omega
@@ -313,7 +442,7 @@ theorem rank_hyps (cfg : Cfg) (base : Nat) (s : St) (hr : RInv cfg base s) (t : 
         subst hP
         obtain ⟨a, b⟩ := hr.invP.slice st len hsl
         have a' : st = s.sh.pseq := a
-        have b' : st + len ≤ s.sh.gate + cfg.size := b
+        have b' : st + len ≤ s.sh.cseq + cfg.size := b
         omega
       · have := hok.prog .wfill (by rw [h]; exact List.mem_cons_self ..)
         cases t <;> simp [Tid.allowed, Call.isProducer, Call.isConsumer] at this hc hp
